@@ -31,7 +31,8 @@ import traceback
 
 from vf import common
 
-CASE_TIMEOUT_S = 180
+CASE_TIMEOUT_S = int(os.environ.get("VF_CASE_TIMEOUT", "180"))
+_TIMED_OUT = [False]
 
 
 # ---------------------------------------------------------------- outcomes
@@ -74,21 +75,28 @@ class _Stop(BaseException):
 
 
 def _alarm(signum, frame):
+    _TIMED_OUT[0] = True
     raise CaseTimeout()
 
 
 def safe_run(mod, case):
     """run_case with the harness-error / hang classification around it."""
     signal.signal(signal.SIGALRM, _alarm)
+    _TIMED_OUT[0] = False
     signal.alarm(CASE_TIMEOUT_S)
     try:
         out = mod.run_case(case)
         if not isinstance(out, dict) or "st" not in out:
             raise TypeError("run_case returned %r" % (out,))
+        if _TIMED_OUT[0] and out["st"] != "ok":
+            # the alarm went off inside a try/except of the oracle: whatever it made of it, this is a timeout
+            return viol("hang", "case did not finish within %d s" % CASE_TIMEOUT_S)
         return out
     except CaseTimeout:
         return viol("hang", "case did not finish within %d s" % CASE_TIMEOUT_S)
     except Exception as e:  # harness error: generator / oracle bug
+        if _TIMED_OUT[0]:
+            return viol("hang", "case did not finish within %d s" % CASE_TIMEOUT_S)
         return {"st": "harness", "detail": exc_detail(e), "nt": False, "labels": []}
     finally:
         signal.alarm(0)
